@@ -4,6 +4,7 @@ import (
 	"encoding/json"
 	"fmt"
 	"math/rand"
+	"os"
 	"regexp"
 	"strings"
 
@@ -26,9 +27,10 @@ type c03Hist struct {
 
 func init() {
 	register(&Prop{ID: "C03", Run: c03Run,
-		Rule: "histories of AddValue / AddValueAt / AddContainer / AddList / Remove / RemoveAt / ListBuilder.Set / Append / Clear / MustSet(in range) / Walk(CompactFn) over path-safe keys with index groups (nested up to 2), aimed at existing positions 2/3 of the time, from empty / generated start documents; every step is filtered by the domain predicate (no index step lands on an existing non-list, non-null node; remove paths end in a key). Non-trivial: at least 3 steps changed the document; distinct by case hash.",
+		Rule: "histories of AddValue / AddValueAt / AddContainer / AddList / Remove / RemoveAt / ListBuilder.Set / Append / Clear / MustSet(in range) / Walk(CompactFn) over path-safe keys with index groups (nested up to 2), aimed at existing positions 2/3 of the time, from empty / generated start documents; every step is filtered by the domain predicate (no index step lands on an existing non-list, non-null node; remove paths end in a key). Non-trivial: at least 3 steps changed the document; distinct by case hash. heap-hist cases (harness/heap_builder.go): the start document is built by one of seven routes (FromMap, AddValue/ListNode with own / shared / mixed nil leaves, the AddContainer/AddList/Set/Append API, shared subtrees, containers with an add-and-remove history), its real object graph is encoded as an explicit heap by pointer identity, and a history of 3-14 (thorough: up to 30) builder calls is run that KEEPS the nodes returned by AddContainer / AddList / Child / Lookup as handles and later writes through them (half of the calls), mixed with root-level path writes aimed at the handles' positions (overwrite / remove / re-create), list Set / MustSet / Append / Clear, Walk(CompactFn), and now and then attaches a node the history already holds (sharing; never closing a cycle); after every call the document, the sharing map of its graph, the liveness of every handle, the returned node and the set of existing objects whose content changed are compared with the heap model (lean/YtkModel/HeapBuilder.lean). Such a case is non-trivial when at least one write went through a kept handle and at least 2 calls changed the document.",
 		Assumptions: []string{"remove operations range over paths whose last step is a key (DESIGN.md section 2)",
-			"a null pad at a list slot counts as absent for a following index step (it is replaced by a list)"}})
+			"a null pad at a list slot counts as absent for a following index step (it is replaced by a list)",
+			"heap-hist tie: a node object is identified by the address its pointer holds, a children map by the address of its header (Children() returns the map itself); item slices are observed through Items(); allocation order is not observable, so new objects are numbered by first visit (preorder, key order; the root's graph, then every detached handle's graph) on both sides; value nodes of heap-hist cases are built with a new leaf object per null, the start document by one of the seven routes of heap_share.go"}})
 	evals["C03"] = c03Eval
 	shrinkers["C03"] = shrinkJSON
 }
@@ -216,6 +218,10 @@ func wireLookup(w W, p string) W {
 }
 
 func c03Run(c *Ctx) {
+	if os.Getenv("VERIF_C03_ONLY") == "heap-hist" { // detection experiments: the pointer-level histories alone
+		heapHistGen(c, c.N(250))
+		return
+	}
 	r := c.Rng
 	g := stdGen()
 	g.Keys = c03Keys
@@ -240,6 +246,7 @@ func c03Run(c *Ctx) {
 		n := 3 + r.Intn(maxLen)
 		c.Do("history", c03Hist{Start: start, Ops: c03GenOps(r, g, start, n, probe)})
 	}
+	heapHistGen(c, c.N(250)) // heap_builder.go: histories that keep handles, compared at pointer level
 }
 
 // c03Apply performs one builder call; returns fluent-identity problems.
@@ -326,6 +333,11 @@ func isPadOf(q, p string) bool {
 }
 
 func c03Eval(c *Ctx, kind string, raw []byte) {
+	switch kind {
+	case "heap-hist":
+		heapHistEval(c, raw)
+		return
+	}
 	var h c03Hist
 	if err := json.Unmarshal(raw, &h); err != nil {
 		panic(err)
